@@ -32,9 +32,9 @@ pub fn check_slice(pipe: &Pipe, input: &[u8], base: &Outcome) -> Result<(usize, 
         return Err(format!("unlimited run failed: {}", base.res.short()));
     }
     let all = lines(&base.stdout);
-    let s = (pipe.skip as usize).min(all.len());
+    let s = (pipe.skip.min(all.len() as u64)) as usize;
     let e = match pipe.take {
-        Some(t) => (s + t as usize).min(all.len()),
+        Some(t) => (s as u64).saturating_add(t).min(all.len() as u64) as usize,
         None => all.len(),
     };
     let slice = &all[s..e];
@@ -81,7 +81,26 @@ impl Check for C08Slice {
         tier.pick(30_000, 600_000)
     }
     fn strategy(&self, _t: Tier) -> BoxedStrategy<Case08> {
-        (arb_pipe_recs(40), arb_pipe(3, true)).prop_map(|(recs, pipe)| Case08 { recs, pipe }).boxed()
+        // one case in ten has a limit near the ends of the u64 range (S + T must not wrap)
+        let huge = prop_oneof![Just(u64::MAX), Just(u64::MAX - 1), Just(u64::MAX - 6), Just(1u64 << 63), Just((1u64 << 63) - 1), Just(1u64 << 32), Just((1u64 << 32) - 1), Just(u32::MAX as u64 + 7)];
+        (arb_pipe_recs(40), arb_pipe(3, true), 0u8..20, huge.clone(), huge)
+            .prop_map(|(recs, mut pipe, h, a, b)| {
+                match h {
+                    0 => pipe.take = Some(a),
+                    1 => {
+                        pipe.take = Some(a);
+                        pipe.skip = pipe.skip.max(1);
+                    }
+                    2 => pipe.skip = b,
+                    3 => {
+                        pipe.take = Some(a);
+                        pipe.skip = b;
+                    }
+                    _ => {}
+                }
+                Case08 { recs, pipe }
+            })
+            .boxed()
     }
     fn check(&self, case: &Case08) -> CaseResult {
         let input = case.pipe.input(&case.recs);
@@ -103,11 +122,11 @@ impl Check for C08Slice {
                             }
                         }
                     };
-                    cut(p.skip as usize) || p.take.map(|t| cut((p.skip + t) as usize)).unwrap_or(false)
+                    cut(p.skip.min(1 << 40) as usize) || p.take.map(|t| cut(p.skip.saturating_add(t).min(1 << 40) as usize)).unwrap_or(false)
                 } else {
                     false
                 };
-                let cuts = p.take.map(|t| ((p.skip + t) as usize) < n).unwrap_or(false);
+                let cuts = p.take.map(|t| p.skip.saturating_add(t) < n as u64).unwrap_or(false);
                 let nt = n >= 2 && (boundary_tie || (cuts && p.sort.len() >= 2) || (p.group != 0 && (p.take.is_some() || p.skip > 0)) || (cuts && (p.unique || p.split.is_some())));
                 CaseResult::Pass(
                     Info::new(nt)
@@ -119,7 +138,9 @@ impl Check for C08Slice {
                         .class_if(p.unique, "unique")
                         .class_if(p.split.is_some(), "split")
                         .class_if(p.take.is_none(), "take_absent")
-                        .class_if(p.skip as usize >= n && n > 0, "skip_beyond_end")
+                        .class_if(p.skip >= n as u64 && n > 0, "skip_beyond_end")
+                        .class_if(p.skip >= 1 << 32 || p.take.map(|t| t >= 1 << 32).unwrap_or(false), "limit_beyond_2^32")
+                        .class_if(p.take.map(|t| p.skip.checked_add(t).is_none()).unwrap_or(false), "skip_plus_take_beyond_u64")
                         .obs(json!({"unlimited_rows": n, "stdout": esc_trunc(&out, 300)})),
                 )
             }
